@@ -582,6 +582,39 @@ theorem join_fold_inv {S : List Nat} {orig : Nat} {joinN : List (Nat × Nat)} {s
       · by_contra hc; rw [List.getElem?_eq_none (by omega)] at hb2; cases hb2
     · exact i3 x hx
 
+theorem join_fold_counts {S : List Nat} {orig : Nat} {joinN : List (Nat × Nat)} {st st' : Net × List Nat}
+    (h : JInv S st.1) (hdim : ∀ ja ∈ joinN, S[ja.1]? = S[orig + ja.2]?)
+    (hf : joinN.foldlM (joinStep orig) st = .ok st') :
+    st'.1.tensors.length = st.1.tensors.length ∧ st'.1.bonds.length ≤ st.1.bonds.length ∧
+      st.1.bonds.length ≤ st'.1.bonds.length + joinN.length := by
+  induction joinN generalizing st with
+  | nil =>
+    have := foldlM_nil_ok _ _ _ hf
+    subst this
+    exact ⟨rfl, le_refl _, by simp⟩
+  | cons ja js ih =>
+    obtain ⟨s1, hs, hrest⟩ := foldlM_cons_ok _ _ _ _ _ hf
+    have h1 := joinStep_inv h (hdim ja List.mem_cons_self) hs
+    obtain ⟨i1, i2, i3⟩ := ih h1 (fun x hx => hdim x (List.mem_cons_of_mem _ hx)) hrest
+    obtain ⟨toa, b1, b2, hv, hb1, hb2, hm, _⟩ := joinStep_ok hs
+    have hstep : s1.1.tensors.length = st.1.tensors.length ∧ s1.1.bonds.length ≤ st.1.bonds.length ∧
+        st.1.bonds.length ≤ s1.1.bonds.length + 1 := by
+      by_cases hb : b1 = b2
+      · subst hb
+        rw [mergeBonds_eq] at hm
+        simp only [beq_self_eq_true, if_true] at hm
+        rw [← Except.ok.inj hm]
+        exact ⟨rfl, le_refl _, by omega⟩
+      · obtain ⟨B1, B2, _, hB2, heq⟩ := mergeBonds_spec h.1.toWF0 hb hm
+        rw [heq]
+        have := length_dpop_of_nodup _ h.1.bnodup (mem_dkeys_of_mem (mem_of_dget_eq_some _ hB2))
+        simp only [relTensors, dmodify, List.length_map]
+        simp only at this
+        refine ⟨trivial, ?_, ?_⟩ <;> omega
+    simp only [List.length_cons]
+    omega
+
+
 /-! ### the deletion loop -/
 
 /-- erase `n` occurrences of `x` -/
@@ -745,7 +778,7 @@ theorem dget_dmodify (d : List (Int × β)) (k k' : Int) (f : β → β) :
       by_cases h2 : k' = e1
       · subst h2; simp
       · have : (k' == e1) = false := by simpa using h2
-        simp only [this]; exact ih
+        simp only [this] at ih ⊢; exact ih
     · have hb : (e1 == k) = false := by simpa using h1
       simp only [hb, Bool.false_eq_true, if_false, dget, List.lookup]
       by_cases h2 : k' = e1
@@ -831,7 +864,6 @@ theorem restrict_wf {net : Net} {toa : STensor} {D : List Nat} (h : WF net) (hv 
     rw [count_tLegs _ htn, count_bLegs _ hbn]
     simp only
     rw [dget_dmodify, hb, dget_map_val]
-    have hmult := fun T B hT hB => h.toWF0.mult (t := t) (b := b) (T := T) (B := B) hT hB
     cases hT : dget net.tensors t with
     | none =>
       cases hB : dget net.bonds b with
@@ -857,19 +889,17 @@ theorem restrict_wf {net : Net} {toa : STensor} {D : List Nat} (h : WF net) (hv 
           simp only [beq_self_eq_true, if_true]
           rw [List.count_eq_zero]
           intro hm
-          obtain ⟨a, _, rfl⟩ := List.mem_map.mp hm
+          obtain ⟨a, ha, rfl⟩ := List.mem_map.mp hm
           apply hnb
-          rcases hg : toa.bids[a]? with _ | x
-          · simp only [List.mem_map] at hm
-            have := hKlt a ‹_›
-            rw [List.getElem?_eq_none_iff] at hg; omega
-          · rw [hg]; exact List.mem_of_getElem? hg
+          have ha' := hKlt a ha
+          rw [List.getElem?_eq_getElem ha']
+          exact List.getElem_mem _
         · have : (t == -1) = false := by simpa using ht
           simp only [this, Bool.false_eq_true, if_false]
           exact List.count_eq_zero.mpr hnb
       | some B =>
         simp only [Option.map_some]
-        have hm := hmult T B rfl rfl
+        have hm := h.toWF0.mult hT hB
         by_cases ht : t = -1
         · subst ht
           rw [hv] at hT; cases hT
@@ -906,5 +936,154 @@ theorem restrict_wf {net : Net} {toa : STensor} {D : List Nat} (h : WF net) (hv 
         exact mem_legDims he0 hb1 hs1
     intro p hp q hq hpq
     exact h.dims p (hsub p hp) q (hsub q hq) hpq
+
+/-! ### the stages of a successful `merge` -/
+
+theorem forIn_unit_ok {α : Type} (l : List α) (f : α → PUnit → Except Err (ForInStep PUnit))
+    (hf : ∀ x r, f x PUnit.unit = .ok r → r = .yield PUnit.unit)
+    (h : forIn l PUnit.unit f = .ok PUnit.unit) : ∀ x ∈ l, f x PUnit.unit = .ok (.yield PUnit.unit) := by
+  induction l with
+  | nil => simp
+  | cons y ys ih =>
+    rw [List.forIn_cons] at h
+    cases hy : f y PUnit.unit with
+    | error e => rw [hy] at h; cases h
+    | ok r =>
+      have := hf y r hy
+      subst this
+      rw [hy] at h
+      intro x hx
+      rcases List.mem_cons.mp hx with rfl | hx
+      · exact hy
+      · exact ih h x hx
+
+theorem pick_forall₂ {γ : Type} (l : List γ) (d : γ) (f : Nat → Except Err γ)
+    (hf : ∀ a y, f a = .ok y → l[a]? = some y) {ax : List Nat} {r : List γ}
+    (h : List.Forall₂ (fun x y => f x = .ok y) ax r) : r = pickD l d ax ∧ ∀ a ∈ ax, a < l.length := by
+  induction h with
+  | nil => exact ⟨rfl, by simp⟩
+  | @cons x y xs ys hxy _ ih =>
+    have := hf x y hxy
+    have hlt : x < l.length := by
+      by_contra hc; rw [List.getElem?_eq_none (by omega)] at this; cases this
+    refine ⟨?_, ?_⟩
+    · simp only [pickD, List.map_cons]
+      rw [this, ih.1]; rfl
+    · intro a ha
+      rcases List.mem_cons.mp ha with rfl | ha
+      · exact hlt
+      · exact ih.2 a ha
+
+/-- the join list as natural numbers -/
+def joinNat (j : List (Int × Int)) : List (Nat × Nat) := j.map (fun ja => (ja.1.toNat, ja.2.toNat))
+
+/-- the axes to delete: both ends of every join, each once -/
+def delAxesOf (orig : Nat) (joinN : List (Nat × Nat)) : List Nat := (joinN.flatMap (fun ja => [ja.1, orig + ja.2])).eraseDups
+
+/-- every stage of a successful `merge` -/
+theorem merge_ok_inv {a b : Net} {j : List (Int × Int)} {tor bor : List Int} {net' : Net}
+    (h : merge a b j tor bor = .ok net') :
+    ∃ (orig nb : Nat) (o1 : Net) (tmpOpen n1 : Int) (o2 : Net) (n2 : Int) (m1 : Net) (toa1 : STensor) (m2 : Net)
+      (axesMap : List Nat) (m3 : Net) (toa3 : STensor),
+      numOpenAxes a = .ok orig ∧ (j ≠ [] → numOpenAxes b = .ok nb) ∧
+      (∀ ja ∈ j, 0 ≤ ja.1 ∧ ja.1 < orig ∧ 0 ≤ ja.2 ∧ ja.2 < nb) ∧
+      tor.foldlM renTStep (b, -1, maxKey (dkeys a.tensors ++ dkeys b.tensors) + 1) = .ok (o1, tmpOpen, n1) ∧
+      bor.foldlM renBStep (o1, maxKey (dkeys a.bonds ++ dkeys o1.bonds) + 1) = .ok (o2, n2) ∧
+      mergeTensors ⟨dupdate a.tensors o2.tensors, dupdate a.bonds o2.bonds⟩ (-1) tmpOpen = .ok m1 ∧
+      dget m1.tensors (-1) = some toa1 ∧
+      (joinNat j).foldlM (joinStep orig) (m1, List.range toa1.shape.length) = .ok (m2, axesMap) ∧
+      (delAxesOf orig (joinNat j)).foldlM delStep m2 = .ok m3 ∧
+      dget m3.tensors (-1) = some toa3 ∧ (∀ x ∈ axesMap, x < toa3.shape.length ∧ x < toa3.bids.length) ∧
+      net' = ⟨dmodify m3.tensors (-1) (fun t => { t with shape := pickD toa3.shape 0 axesMap, bids := pickD toa3.bids 0 axesMap }),
+              m3.bonds⟩ := by
+  unfold merge at h
+  simp only [bind, Except.bind] at h
+  split at h
+  · cases h
+  · rename_i u hloop
+    split at h
+    · cases h
+    · rename_i orig horig
+      split at h
+      · cases h
+      · rename_i x1 hf1
+        obtain ⟨o1, tmpOpen, n1⟩ := x1
+        simp only at h
+        split at h
+        · cases h
+        · rename_i x2 hf2
+          obtain ⟨o2, n2⟩ := x2
+          simp only at h
+          split at h
+          · cases h
+          · rename_i m1 hm1
+            split at h
+            · rename_i toa1 htoa1
+              split at h
+              · cases h
+              · rename_i x3 hf3
+                obtain ⟨m2, axesMap⟩ := x3
+                split at h
+                · cases h
+                · rename_i m3 hf4
+                  split at h
+                  · rename_i toa3 htoa3
+                    split at h
+                    · cases h
+                    · rename_i shape hshape
+                      split at h
+                      · cases h
+                      · rename_i bids hbids
+                        have hs := pick_forall₂ toa3.shape 0 _ (by
+                          intro x y hy; split at hy
+                          · rename_i d hd; rw [hd]; exact congrArg some (Except.ok.inj hy)
+                          · cases hy) (mapM_ok_inv hshape)
+                        have hb := pick_forall₂ toa3.bids 0 _ (by
+                          intro x y hy; split at hy
+                          · rename_i d hd; rw [hd]; exact congrArg some (Except.ok.inj hy)
+                          · cases hy) (mapM_ok_inv hbids)
+                        have hnet : net' = ⟨dmodify m3.tensors (-1) (fun t => { t with shape := pickD toa3.shape 0 axesMap, bids := pickD toa3.bids 0 axesMap }), m3.bonds⟩ := by
+                          rw [← hs.1, ← hb.1]; exact (Except.ok.inj h).symm
+                        have hrange : ∀ nb, numOpenAxes b = .ok nb → ∀ ja ∈ j, 0 ≤ ja.1 ∧ ja.1 < orig ∧ 0 ≤ ja.2 ∧ ja.2 < nb := by
+                          intro nb hnb ja hja
+                          have := forIn_unit_ok j _ (by
+                            intro x r hr
+                            rw [horig, hnb] at hr
+                            simp only at hr
+                            split at hr
+                            · cases hr
+                            · split at hr
+                              · cases hr
+                              · exact (Except.ok.inj hr).symm) hloop ja hja
+                          rw [horig, hnb] at this
+                          simp only at this
+                          split at this
+                          · cases this
+                          · rename_i h1
+                            split at this
+                            · cases this
+                            · rename_i h2
+                              simp only [Bool.or_eq_true, decide_eq_true_eq, not_or, not_lt, ge_iff_le, not_le] at h1 h2
+                              exact ⟨h1.1, h1.2, h2.1, h2.2⟩
+                        cases hnb : numOpenAxes b with
+                        | ok nb =>
+                          exact ⟨orig, nb, o1, tmpOpen, n1, o2, n2, m1, toa1, m2, axesMap, m3, toa3, horig, fun _ => rfl,
+                            hrange nb hnb, hf1, hf2, hm1, htoa1, hf3, hf4, htoa3,
+                            fun x hx => ⟨hs.2 x hx, hb.2 x hx⟩, hnet⟩
+                        | error e =>
+                          have hj : j = [] := by
+                            cases j with
+                            | nil => rfl
+                            | cons ja js =>
+                              exfalso
+                              rw [List.forIn_cons, horig, hnb] at hloop
+                              simp only at hloop
+                              split at hloop <;> cases hloop
+                          subst hj
+                          exact ⟨orig, 0, o1, tmpOpen, n1, o2, n2, m1, toa1, m2, axesMap, m3, toa3, horig, fun hne => absurd rfl hne,
+                            by simp, hf1, hf2, hm1, htoa1, hf3, hf4, htoa3,
+                            fun x hx => ⟨hs.2 x hx, hb.2 x hx⟩, hnet⟩
+                  · cases h
+            · cases h
 
 end Qib.TNet
